@@ -1,12 +1,21 @@
 //! C02 — No network input can panic or hang the receive path
 //!
 //! Sub-checks (all sampled; the oracle everywhere is the engine's panic capture over every task of the case's world
-//! plus "valid traffic after the hostile input is still answered"):
+//! plus "valid traffic after the hostile input is still answered"; `hostile` and `uac_session_life` additionally run
+//! under the spin guard: no task may be polled again and again while virtual time stands still = "never loop forever"):
 //! * `hostile` — one hostile input (structured mutations of valid messages / byte mutations / noise) through the
 //!   datagram parser, every typed decoder, the stream decoder and the whole receive path of a UAS endpoint
-//!   (DialogLayer + InviteLayer + an application accepting every INVITE), outside a dialog or inside the dialog of a
-//!   call set up before (established / before the ACK / INVITE still pending). The world then runs 40 s, or
-//!   (`long_life`) 1900 s so that the 1800 s session timer of the set-up call expires and the session ends itself.
+//!   (DialogLayer + InviteLayer + an application), outside a dialog or inside the dialog of a call set up before
+//!   (established / before the ACK / INVITE still pending). Varied besides the input: the transport that carries the
+//!   case (datagram, or a connection = reliable transport, in random segments; an in-dialog case may run its whole call
+//!   over the connection), what the application does with an INVITE / re-INVITE (accept; accept both; reject at once
+//!   with a 3xx-6xx; ring then reject through `Acceptor`; not interested = the endpoint's own 481), and what the peer
+//!   does with a 3xx-6xx to its INVITE (ACK after 50 ms / 700 ms / 5 s / 33 s, or never). The structured inputs include
+//!   SIP URIs in rare grammar-derived forms (RFC 3261 25.1: user, user:password, %XX escapes in every component that
+//!   admits them, IPv6 hosts, ports, uri-parameters, headers) in the request line, From / To / Contact / Route /
+//!   Record-Route, escapes and quoted strings in header parameters, and a CANCEL of the pending INVITE. The world then
+//!   runs 40 s, or (`long_life`) 1900 s so that the 1800 s session timer of the set-up call expires and the session
+//!   ends itself.
 //! * `uac_hostile_responses` — hostile header values in the responses to an INVITE sent through `Initiator`
 //!   (C13's world; the application is handed early dialogs / sessions and does nothing with them).
 //! * `uac_session_life` — the same UAC side, but the application USES what it was handed: every `Session` (directly
@@ -20,6 +29,8 @@
 //!   dialog (BYE / re-INVITE / UPDATE / others, CSeq up to u32::MAX+1, hostile headers, ACK or not); whether the
 //!   application answers a re-INVITE, how many events it handles, whether and when it hangs up; 0.9 s .. 1900 s of
 //!   virtual time. Not asserted: which event the application gets, what goes over the wire, when (C13 / C17).
+//!
+//! Not asserted anywhere: that a hostile message is answered, with what, or what the application is told.
 
 use super::c03::{decode_stream, hex_bytes};
 use crate::engine::*;
@@ -61,6 +72,14 @@ pub struct Case {
     /// application armed for the call (1800 s, peer refreshes) expires and the session ends itself with a BYE
     #[serde(default)]
     pub long_life: bool,
+    /// what the application does with an INVITE / a re-INVITE (index into `APP_POLICIES`; 0 = accept every INVITE and
+    /// let go of re-INVITEs, the only behaviour before this field existed)
+    #[serde(default)]
+    pub app: u8,
+    /// the peer acknowledges every 3xx-6xx final response to an INVITE this many ms after the hostile input was
+    /// delivered (None = never: a hostile or vanished peer)
+    #[serde(default)]
+    pub peer_ack_ms: Option<u64>,
     pub rng: u8,
 }
 
@@ -77,7 +96,13 @@ fn base(kind: u8) -> (String, H, Vec<u8>) {
     let contact = ("Contact".to_string(), "<sip:mallory@192.0.2.9>".to_string());
     let mf = ("Max-Forwards".to_string(), "70".to_string());
     let dialog_to = ("To".to_string(), "<sip:ezk@10.0.0.1>;tag=sometag".to_string());
-    match kind % 9 {
+    match kind % 10 {
+        9 => (
+            // CANCEL of the INVITE that sets up the call of the in-dialog modes (answered 481 when there is no such INVITE)
+            "CANCEL sip:ezk@10.0.0.1 SIP/2.0".into(),
+            vec![("Via".to_string(), "SIP/2.0/UDP 192.0.2.9:5060;branch=z9hG4bKsetupcall".to_string()), mf, from, to, cid, ("CSeq".into(), "1 CANCEL".into()), ("Content-Length".into(), "0".into())],
+            vec![],
+        ),
         5 => (
             "INVITE sip:ezk@10.0.0.1 SIP/2.0".into(),
             vec![via, mf, from, dialog_to, cid, ("CSeq".into(), "2 INVITE".into()), contact, ("Supported".into(), "timer".into()), ("Session-Expires".into(), "90;refresher=uac".into()), ("Content-Length".into(), "0".into())],
@@ -132,6 +157,83 @@ const VIAS: &[&str] = &["x", "", "SIP/2.0/UDP", "SIP/2.0/UDP 192.0.2.9;rport", "
 const ADDRS: &[&str] = &["<sip:a@b>", "sip:a@b", "\"unbalanced <sip:a@b>;tag=1", "<sip:a@b", "", "sip:", "<sip:a@b>;tag=1;tag=2", "<sip:a@b>;tag", "\"\" <sip:a@b>;tag=e", "<sip:a@[::1]:x>;tag=1", "<sips:%41@b:65536>", "<tel:+1>;tag=t", "*", "<sip:a@b>;tag=%ff", "<sip:a@b?x=%>;tag=1", "<sip:a@b;=;;>;tag=1"];
 const AUTHS: &[&str] = &["Digest qop=\",\"", "Digest realm=\"\", nonce=\"\", qop=\"\", algorithm=", "Digest", "Digest ,,,", "Basic", "", "Digest realm=\"a, nonce=b", "Digest username*=UTF-8''%, realm=\"r\"", "Digest nc=zzzzzzzz, cnonce=\"\", qop=auth-int, response=\"\""];
 
+/// size of the mutation catalogue of `mutate`
+const MUTATIONS: u8 = 30;
+
+/// independent component choices out of one selector (a fixed integer hash: the choice is a pure function of the case)
+fn mix(s: u16, k: u32) -> usize {
+    let mut x = (s as u32 ^ 0x9e37_79b9).wrapping_mul(0x85eb_ca6b) ^ k.wrapping_mul(0xc2b2_ae35);
+    x ^= x >> 15;
+    x = x.wrapping_mul(0x2c1b_3c6d);
+    x ^= x >> 12;
+    x = x.wrapping_mul(0x297a_2d39);
+    x ^= x >> 15;
+    x as usize
+}
+
+// The components of a SIP URI after RFC 3261 25.1 (`sip:user:password@host:port;uri-parameters?headers`), each list
+// = the plain form, every character class the grammar allows there, `escaped` (%XX) octets that decode to ASCII, to a
+// reserved character, to valid and to invalid UTF-8 and to NUL, plus a few spellings just outside the grammar.
+const URI_SCHEMES: &[&str] = &["sip:", "sip:", "sip:", "sips:", "SIP:", "Sips:"];
+const URI_USERS: &[&str] = &[
+    "alice", "alice", "bob", "a%6Cice", "%61", "al%C3%A9", "j%40son", "a%3Ab", "+1-212-555-0101", "1234;phone-context=example.com", "a&b=c+d$e,f;g?h/i", "-_.!~*'()", "%00", "%FF", "%25", "%c3%28", "a%2", "",
+];
+/// (password, has a well-formed escape)
+const URI_PASSWORDS: &[(&str, bool)] = &[
+    ("secret", false), ("", false), ("&=+$,", false), ("-_.!~*'()", false), ("1234", false),
+    ("pa%73sword", true), ("%70", true), ("p%C3%A9", true), ("%FF", true), ("%00", true), ("%25%32%35", true), ("a%3Ab", true), ("%40", true), ("x%c3", true), ("secret%2", false), ("%", false),
+];
+const URI_HOSTS: &[&str] = &["192.0.2.9", "10.0.0.1", "b", "example.com.", "EXAMPLE.com", "a-b.c-d.example", "[2001:db8::1]", "[::ffff:192.0.2.9]"];
+const URI_PORTS: &[&str] = &["", "", "", ":5060", ":0", ":65535", ":65536", ":"];
+/// (uri-parameters, has an escape)
+const URI_PARAMS: &[(&str, bool)] = &[
+    ("", false), ("", false), ("", false), (";transport=tcp", false), (";user=phone", false), (";method=INVITE;ttl=255;maddr=224.2.0.1", false), (";lr", false), (";lr=;lr", false),
+    (";[]/:&+$=[]/:&+$", false), (";a;b;c=d;transport=udp;lr", false), (";maddr=[::1]", false), (";=", false),
+    (";transport=%74cp", true), (";x%41=y%42", true), (";%C3%A9=%C3%A9", true), (";p=%FF", true), (";p=%00", true), (";%6Cr", true), (";p=%", false),
+];
+/// (headers, has an escape)
+const URI_HEADERS: &[(&str, bool)] = &[
+    ("", false), ("", false), ("", false), ("", false), ("?a=", false), ("?priority=urgent&a=b", false), ("?[]/?:+$=[]/?:+$", false), ("?a", false), ("?=&=", false),
+    ("?subject=a%20b", true), ("?to=alice%40atlanta.com&priority=urgent", true), ("?%41=%42", true), ("?x=%FF", true), ("?x=%C3%A9&x=%C3%A9", true), ("?Replaces=abc%3Bfrom-tag%3D1%3Bto-tag%3D2", true), ("?x=%00", true),
+];
+
+/// one URI = an independent choice per component; returns the text and the class labels of its shape
+fn uri_form(s: u16, k: u32) -> (String, Vec<&'static str>) {
+    let mut classes = vec![];
+    let scheme = URI_SCHEMES[mix(s, k * 8 + 1) % URI_SCHEMES.len()];
+    let host = URI_HOSTS[mix(s, k * 8 + 2) % URI_HOSTS.len()];
+    let port = URI_PORTS[mix(s, k * 8 + 3) % URI_PORTS.len()];
+    let (params, params_escaped) = URI_PARAMS[mix(s, k * 8 + 4) % URI_PARAMS.len()];
+    let (headers, headers_escaped) = URI_HEADERS[mix(s, k * 8 + 5) % URI_HEADERS.len()];
+    // userinfo: none (1/8), user only (3/8), user and password (4/8)
+    let userinfo = match mix(s, k * 8 + 6) % 8 {
+        0 => String::new(),
+        n => {
+            let user = URI_USERS[mix(s, k * 8 + 7) % URI_USERS.len()];
+            if user.contains('%') {
+                classes.push("uri:escape-in-user");
+            }
+            if n < 4 {
+                format!("{user}@")
+            } else {
+                let (password, escaped) = URI_PASSWORDS[mix(s, k * 8 + 8) % URI_PASSWORDS.len()];
+                classes.push(if escaped { "uri:password-with-escape" } else { "uri:password-without-escape" });
+                format!("{user}:{password}@")
+            }
+        }
+    };
+    if params_escaped {
+        classes.push("uri:escape-in-uri-parameter");
+    }
+    if headers_escaped {
+        classes.push("uri:escape-in-uri-header");
+    }
+    if host.starts_with('[') {
+        classes.push("uri:ipv6-host");
+    }
+    (format!("{scheme}{userinfo}{host}{port}{params}{headers}"), classes)
+}
+
 fn set(h: &mut H, name: &str, value: &str) {
     if let Some(e) = h.iter_mut().find(|(n, _)| n.eq_ignore_ascii_case(name)) {
         e.1 = value.to_string();
@@ -142,9 +244,9 @@ fn set(h: &mut H, name: &str, value: &str) {
 }
 
 /// apply mutation `m` (selector `s`) to the message; returns its label
-fn mutate(m: u8, s: u16, start: &mut String, h: &mut H, body: &mut Vec<u8>, raw_tail: &mut Vec<u8>) -> String {
+fn mutate(m: u8, s: u16, start: &mut String, h: &mut H, body: &mut Vec<u8>, raw_tail: &mut Vec<u8>, extra: &mut Vec<String>) -> String {
     let pick = |list: &[&str]| list[pick_idx(s, list.len())].to_string();
-    match m % 27 {
+    match m % MUTATIONS {
         0 => {
             set(h, "Content-Length", &pick(CLENS));
             "content-length".into()
@@ -293,13 +395,69 @@ fn mutate(m: u8, s: u16, start: &mut String, h: &mut H, body: &mut Vec<u8>, raw_
             }
             "branch-of-live-transaction".into()
         }
+        27 | 28 => {
+            // a SIP URI in a grammar-derived rare form at one of the places the receive path reads URIs from
+            let (uri, mut classes) = uri_form(s, (m / MUTATIONS) as u32 + if m % MUTATIONS == 28 { 16 } else { 0 });
+            let place = mix(s, 90 + (m / MUTATIONS) as u32) % 8;
+            let wrap = |uri: &str, k: usize| match k % 4 {
+                0 | 1 => format!("<{uri}>"),
+                2 => format!("\"Display \\\"Q\\\" Name\" <{uri}>"),
+                _ => uri.to_string(),
+            };
+            let in_header = |h: &mut H, name: &str, value: String| {
+                // keep the header parameters (tags) of the value that is replaced
+                let tail = h.iter().find(|(n, _)| n.eq_ignore_ascii_case(name)).and_then(|(_, v)| v.rfind('>').map(|i| v[i + 1..].to_string())).unwrap_or_default();
+                set(h, name, &format!("{value}{tail}"));
+            };
+            match place {
+                0 | 1 | 2 if !start.starts_with("SIP/") && start.split(' ').count() == 3 => {
+                    let parts: Vec<String> = start.split(' ').map(str::to_string).collect();
+                    *start = format!("{} {uri} {}", parts[0], parts[2]);
+                    classes.push("uri@request-line");
+                }
+                0 | 3 => {
+                    in_header(h, "From", wrap(&uri, mix(s, 91)));
+                    classes.push("uri@from-to");
+                }
+                1 | 4 => {
+                    in_header(h, "To", wrap(&uri, mix(s, 91)));
+                    classes.push("uri@from-to");
+                }
+                2 | 5 => {
+                    in_header(h, "Contact", wrap(&uri, mix(s, 91)));
+                    classes.push("uri@contact");
+                }
+                6 => {
+                    set(h, "Route", &format!("<{uri}>, <sip:p2.example.com;lr>"));
+                    classes.push("uri@route");
+                }
+                _ => {
+                    set(h, "Record-Route", &format!("<sip:p1.example.com;lr>,<{uri}>"));
+                    classes.push("uri@route");
+                }
+            }
+            extra.extend(classes.into_iter().map(str::to_string));
+            "uri-form".into()
+        }
+        29 => {
+            // escapes, quoted strings and quoted pairs in header parameters and display names
+            match mix(s, 95) % 6 {
+                0 => set(h, "From", &format!("\"{}\" <sip:mallory@192.0.2.9>;tag={}", pick(&["a\\\"b", "\\\\", "%41", "\u{e9}\\\u{e9}", "", "a\\"]), ["mt", "m%74", "%6Dt", "mt;x=\"q\\\"q\"", "mt;%78=%79", "%ff", "%"][mix(s, 96) % 7])),
+                1 => set(h, "Via", &format!("SIP/2.0/UDP 192.0.2.9:5060;branch=z9hG4bKhost%69le1{}", pick(&[";rport", ";x-info=\"a b\"", ";x=\"\\\"\"", ";%72port", ";received=192.0.2.9;rport=%35", ";ttl=%31", ";maddr=%5B::1%5D", ";x=%"]))),
+                2 => set(h, "Call-ID", &pick(&["c02%2Dcall", "a%40b@c%2e", "%", "%%%", "%00", "a@[::1]", "\"c02-call\""])),
+                3 => set(h, "Contact", &format!("<sip:mallory@192.0.2.9>{}", pick(&[";expires=%31", ";q=0.%35", ";+sip.instance=\"<urn:uuid:00000000-0000-1000-8000-000A95A0E128>\"", ";expires=\"5\"", ";x=\"\\\\\"", ";%65xpires=5", ";q=%", ";expires=5;expires=%35"]))),
+                4 => set(h, "Content-Type", &pick(&["application/sdp;charset=\"utf\\-8\"", "application/sdp;%63harset=x", "multipart/mixed;boundary=\"a\\\"b\"", "a%2Fb/c", "application/sdp;x=%", "application/sdp;x=\"\""])),
+                _ => set(h, "To", &format!("<sip:ezk@10.0.0.1>;tag={}", pick(&["some%74ag", "sometag;x=%41", "sometag;x=\"%41\"", "%73ometag", "sometag%", "sometag;%"]))),
+            }
+            "escapes-in-header-parameters".into()
+        }
         _ => {
             // a long malformed value of a header the receive path decodes, with one multi-byte UTF-8 character at
             // any byte offset 0..150 (error paths that cut, quote or index into the offending text)
             let filler = (s % 150) as usize;
             let ch = ['\u{e9}', '\u{20ac}', '\u{1f600}', '\u{a0}'][((s / 150) % 4) as usize];
             let which = ["CSeq", "From", "To", "Call-ID", "Via", "Contact", "Max-Forwards", "Expires", "Session-Expires", "Content-Type", "RAck", "Supported"][((s / 600) % 12) as usize];
-            let lead = if m % 27 == 25 { "" } else { match which { "CSeq" => "7 ", "From" | "To" | "Contact" => "<sip:a@b>;tag=", "Via" => "SIP/2.0/UDP 192.0.2.9;branch=", _ => "" } };
+            let lead = if m % MUTATIONS == 25 { "" } else { match which { "CSeq" => "7 ", "From" | "To" | "Contact" => "<sip:a@b>;tag=", "Via" => "SIP/2.0/UDP 192.0.2.9;branch=", _ => "" } };
             let value = format!("{lead}{}{ch} OPTIONS;x=\"{ch}", "q".repeat(filler));
             set(h, which, &value);
             "long-non-ascii-malformed-value".into()
@@ -338,10 +496,11 @@ fn render(start: &str, h: &H, body: &[u8], lf_only: bool, lead: u8, raw_tail: &[
     out
 }
 
-/// `dialog`: prefer the templates that address the dialog of the set-up call (BYE, re-INVITE, PRACK, ACK, UPDATE)
+/// `dialog`: prefer the templates that address the dialog of the set-up call (BYE, re-INVITE, PRACK, ACK, UPDATE) or
+/// its INVITE (CANCEL)
 fn structured(dialog: bool) -> BoxedStrategy<(Vec<u8>, Vec<String>)> {
     (
-        if dialog { prop_oneof![1 => any::<u8>(), 6 => prop_oneof![Just(2u8), Just(5u8), Just(6u8), Just(7u8), Just(8u8)]].boxed() } else { any::<u8>().boxed() },
+        if dialog { prop_oneof![1 => any::<u8>(), 6 => prop_oneof![Just(2u8), Just(5u8), Just(6u8), Just(7u8), Just(8u8), Just(9u8)]].boxed() } else { any::<u8>().boxed() },
         prop::collection::vec((any::<u8>(), any::<u16>()), 1..4),
         prop::bool::weighted(0.1),
         prop_oneof![6 => Just(0u8), 1 => Just(1u8), 1 => Just(2u8), 1 => Just(4u8)],
@@ -352,7 +511,9 @@ fn structured(dialog: bool) -> BoxedStrategy<(Vec<u8>, Vec<String>)> {
             let mut raw_tail = vec![];
             let mut labels = vec![];
             for (m, s) in muts {
-                labels.push(mutate(m, s, &mut start, &mut h, &mut body, &mut raw_tail));
+                let mut extra = vec![];
+                labels.push(mutate(m, s, &mut start, &mut h, &mut body, &mut raw_tail, &mut extra));
+                labels.extend(extra);
             }
             if lf_only {
                 labels.push("lf-only".into());
@@ -420,33 +581,96 @@ pub fn strategy() -> BoxedStrategy<Case> {
                 prop::bool::weighted(0.4),
                 any::<u8>(),
                 prop::bool::weighted(0.2),
+                (
+                    // the application: half of the cases the one that accepts everything, else one of the others
+                    prop_oneof![6 => Just(0u8), 6 => 1u8..APP_POLICIES.len() as u8],
+                    // the peer's ACK for a 3xx-6xx: never / well within T1 / after T1 / late / after timer H
+                    prop_oneof![4 => Just(None), 2 => Just(Some(50u64)), 2 => Just(Some(700u64)), 1 => Just(Some(5_000u64)), 1 => Just(Some(33_000u64))],
+                    // an in-dialog case keeps its stream delivery (the whole call then runs over the connection)
+                    prop::bool::weighted(0.6),
+                ),
             )
         })
-        .prop_map(|((bytes, labels), stream_cuts, in_dialog, early, rng, long_life)| {
-            // in-dialog delivery uses the datagram transport the call was set up on
-            let stream_cuts = if in_dialog { None } else { stream_cuts };
-            Case { bytes, labels, stream_cuts, in_dialog, early: early && in_dialog, before_ack: in_dialog && !early && rng % 2 == 1, long_life: long_life && in_dialog, rng }
+        .prop_map(|((bytes, labels), stream_cuts, in_dialog, early, rng, long_life, (app, peer_ack_ms, dialog_over_stream))| {
+            let stream_cuts = if in_dialog && !dialog_over_stream { None } else { stream_cuts };
+            Case { bytes, labels, stream_cuts, in_dialog, early: early && in_dialog, before_ack: in_dialog && !early && rng % 2 == 1, long_life: long_life && in_dialog, app, peer_ack_ms, rng }
         })
         .boxed()
 }
 
 // ---------------------------------------------------------------------------------------------
-// world: an endpoint with the full UA stack that accepts every INVITE
+// world: an endpoint with the full UA stack and an application with one of a few INVITE policies
 
-struct AcceptAll {
+#[derive(Clone, Copy, Debug)]
+enum OnInvite {
+    /// 180, reliable 183 when the peer supports 100rel, 200; the session is driven for 4 events
+    Accept,
+    /// a 3xx-6xx at once through the INVITE server transaction
+    Reject(u16),
+    /// dialog + `Acceptor`, 180, then the failure through `Acceptor::respond_failure`
+    RingThenReject(u16),
+    /// the layer does not take the request: the endpoint answers 481 itself
+    NotInterested,
+}
+
+#[derive(Clone, Copy, Debug)]
+enum OnReInvite {
+    /// the application drops the event without answering
+    LetGo,
+    Accept,
+    Reject(u16),
+}
+
+/// (a new INVITE, a re-INVITE inside the session, class). The INVITE that sets up the call of the in-dialog modes is
+/// accepted under every policy (there would be no dialog otherwise).
+const APP_POLICIES: &[(OnInvite, OnReInvite, &str)] = &[
+    (OnInvite::Accept, OnReInvite::LetGo, "application:accepts-INVITE(lets go of a re-INVITE)"),
+    (OnInvite::Accept, OnReInvite::Accept, "application:accepts-INVITE-and-re-INVITE"),
+    (OnInvite::Reject(486), OnReInvite::Reject(488), "application:rejects-INVITE-at-once(3xx-6xx)"),
+    (OnInvite::Reject(603), OnReInvite::Reject(603), "application:rejects-INVITE-at-once(3xx-6xx)"),
+    (OnInvite::Reject(302), OnReInvite::Reject(500), "application:rejects-INVITE-at-once(3xx-6xx)"),
+    (OnInvite::RingThenReject(480), OnReInvite::Reject(491), "application:rings-then-rejects-INVITE"),
+    (OnInvite::NotInterested, OnReInvite::LetGo, "application:not-interested(endpoint answers 481)"),
+];
+
+fn app_policy(app: u8) -> (OnInvite, OnReInvite, &'static str) {
+    APP_POLICIES[(app as usize).min(APP_POLICIES.len() - 1)]
+}
+
+const SETUP_BRANCH: &str = "z9hG4bKsetupcall";
+
+struct App {
     dialog_layer: LayerKey<DialogLayer>,
     invite_layer: LayerKey<InviteLayer>,
+    on_invite: OnInvite,
+    on_reinvite: OnReInvite,
 }
 
 #[async_trait::async_trait]
-impl Layer for AcceptAll {
+impl Layer for App {
     fn name(&self) -> &'static str {
-        "accept-all"
+        "c02-application"
     }
     async fn receive(&self, endpoint: &Endpoint, request: MayTake<'_, IncomingRequest>) {
         if request.line.method != Method::INVITE {
             return;
         }
+        let on_invite = if request.tsx_key.branch().to_string() == SETUP_BRANCH { OnInvite::Accept } else { self.on_invite };
+        let on_reinvite = self.on_reinvite;
+        let code = match on_invite {
+            OnInvite::NotInterested => return,
+            OnInvite::Reject(code) => {
+                let mut invite = request.take();
+                let response = endpoint.create_response(&invite, Code::from(code), None);
+                let tsx = endpoint.create_server_inv_tsx(&mut invite);
+                tokio::spawn(async move {
+                    let _ = tsx.respond_failure(response).await;
+                });
+                return;
+            }
+            OnInvite::RingThenReject(code) => Some(code),
+            OnInvite::Accept => None,
+        };
         let invite = request.take();
         let contact: SipUri = "sip:ezk@10.0.0.1".parse().unwrap();
         let Ok(dialog) = Dialog::new_server(endpoint.clone(), self.dialog_layer, &invite, Contact::new(NameAddr::uri(contact))) else { return };
@@ -454,6 +678,12 @@ impl Layer for AcceptAll {
         tokio::spawn(async move {
             if let Ok(r) = acceptor.create_response(Code::from(180), None).await {
                 let _ = acceptor.respond_provisional(r).await;
+            }
+            if let Some(code) = code {
+                if let Ok(r) = acceptor.create_response(Code::from(code), None).await {
+                    let _ = acceptor.respond_failure(r).await;
+                }
+                return;
             }
             if acceptor.peer_supports_100rel() {
                 if let Ok(r) = acceptor.create_response(Code::from(183), None).await {
@@ -470,13 +700,155 @@ impl Layer for AcceptAll {
                         Ok(SessionEvent::RefreshNeeded(e)) => {
                             let _ = e.process_default().await;
                         }
-                        Ok(SessionEvent::ReInviteReceived(_)) => {}
+                        Ok(SessionEvent::ReInviteReceived(e)) => match on_reinvite {
+                            OnReInvite::LetGo => {}
+                            OnReInvite::Accept => {
+                                if let Ok(r) = e.session.dialog.create_response(&e.invite, Code::OK, None) {
+                                    let _ = e.respond_success(r).await;
+                                }
+                            }
+                            OnReInvite::Reject(code) => {
+                                if let Ok(r) = e.session.dialog.create_response(&e.invite, Code::from(code), None) {
+                                    let _ = e.transaction.respond_failure(r).await;
+                                }
+                            }
+                        },
                         Ok(SessionEvent::Terminated) | Err(_) => break,
                     }
                 }
             }
         });
     }
+}
+
+// ---------------------------------------------------------------------------------------------
+// spin guard: "never loop forever" inside the single-threaded world
+//
+// A task that loops without ever waiting for something that lies in the future (a deadline in the past that is never
+// moved, a channel that is polled again at once) is woken again the moment it yields (tokio's cooperative budget makes
+// it yield), the runtime never goes idle and the paused clock can never advance: virtual time stands still while the
+// task is polled again and again. The guard counts the task polls of the runtime per virtual instant (runtime hook
+// `on_before_task_poll`; the count is a pure function of the case) and ends the world when one instant has seen more
+// than `SPIN_LIMIT` of them. The busiest instants of a sound run have a few hundred polls (class
+// "busiest-instant:..."), the limit is fifty times that.
+
+const SPIN_LIMIT: u64 = 5_000;
+
+#[derive(Default)]
+struct GuardState {
+    instant: Option<tokio::time::Instant>,
+    polls: u64,
+    busiest: u64,
+    tripped: bool,
+    waker: Option<std::task::Waker>,
+}
+
+/// what the guard saw: the largest number of task polls at one virtual instant, and when it tripped
+#[derive(Clone, Copy, Debug, Default)]
+struct Guard {
+    busiest: u64,
+    tripped_at_ms: Option<u64>,
+}
+
+/// `run_world` with the spin guard; None = the world was ended by the guard
+fn run_world_guarded<F, Fut, R>(rng_seed: u64, f: F) -> (Option<R>, Guard)
+where
+    F: FnOnce(Clock) -> Fut,
+    Fut: std::future::Future<Output = R>,
+{
+    use std::sync::Arc;
+    use std::task::Poll;
+    let state: Arc<parking_lot::Mutex<GuardState>> = Default::default();
+    let hook = state.clone();
+    let rt = tokio::runtime::Builder::new_current_thread()
+        .enable_time()
+        .start_paused(true)
+        .rng_seed(tokio::runtime::RngSeed::from_bytes(&rng_seed.to_le_bytes()))
+        .on_before_task_poll(move |_| {
+            let now = tokio::time::Instant::now();
+            let wake = {
+                let mut g = hook.lock();
+                if g.instant != Some(now) {
+                    g.instant = Some(now);
+                    g.polls = 0;
+                }
+                g.polls += 1;
+                g.busiest = g.busiest.max(g.polls);
+                if g.polls > SPIN_LIMIT && !g.tripped {
+                    g.tripped = true;
+                    g.waker.take()
+                } else {
+                    None
+                }
+            };
+            if let Some(w) = wake {
+                w.wake();
+            }
+        })
+        .build()
+        .expect("runtime");
+    let mut tripped_at_ms = None;
+    let r = rt.block_on(async {
+        let clock = Clock { start: tokio::time::Instant::now() };
+        let world = f(clock);
+        tokio::pin!(world);
+        std::future::poll_fn(|cx| {
+            {
+                let mut g = state.lock();
+                if g.tripped {
+                    tripped_at_ms = Some(clock.now_ms());
+                    return Poll::Ready(None);
+                }
+                g.waker = Some(cx.waker().clone());
+            }
+            world.as_mut().poll(cx).map(Some)
+        })
+        .await
+    });
+    // dropping the runtime drops every task still alive (the spinning one included)
+    drop(rt);
+    let busiest = state.lock().busiest;
+    (r, Guard { busiest, tripped_at_ms })
+}
+
+fn guard_classes(g: &Guard, out: &mut CaseOut) {
+    out.class(match g.busiest {
+        0..=99 => "busiest-instant:<100-task-polls",
+        100..=999 => "busiest-instant:100..999-task-polls",
+        1000..=9999 => "busiest-instant:1000..9999-task-polls",
+        _ => "busiest-instant:>=10000-task-polls",
+    });
+}
+
+async fn deliver(endpoint: &Endpoint, tp: &sip_core::transport::TpHandle, src: SocketAddr, conn: &mut Option<PeerConn>, bytes: &[u8]) {
+    match conn {
+        Some(c) => {
+            c.write(bytes).await;
+        }
+        None => {
+            inject(endpoint, tp, src, bytes);
+        }
+    }
+    settle().await;
+}
+
+/// the ACKs a well-behaved peer owes for the 3xx-6xx final responses to its INVITEs seen on the wire so far
+/// (RFC 3261 17.1.1.3: same top Via / branch, To of the response); returns (transport id, destination of the response, ACK)
+fn failure_acks(log: &WireLog, acked: &mut std::collections::BTreeSet<(String, String)>) -> Vec<(u32, SocketAddr, Vec<u8>)> {
+    let mut out = vec![];
+    for (sent, m) in log.parsed() {
+        let Some(m) = m else { continue };
+        let (Some(code), Some((num, method)), Some(via)) = (m.status(), m.cseq(), m.top_via()) else { continue };
+        if code < 300 || method != "INVITE" {
+            continue;
+        }
+        if !acked.insert((m.via_branch().unwrap_or_default(), m.call_id().unwrap_or("").to_string())) {
+            continue;
+        }
+        let ack = request_text("ACK", "sip:ezk@10.0.0.1", &[via], m.header("from").unwrap_or(""), m.header("to").unwrap_or(""), m.call_id().unwrap_or(""), num, "ACK", &[], b"");
+        out.push((sent.tp, sent.dest, ack));
+    }
+    out
 }
 
 fn probe_options(n: u32, transport: &str) -> Vec<u8> {
@@ -520,44 +892,45 @@ fn decode_everything(headers: &Headers) {
     }
 }
 
+/// Run one pure parsing stage. A panic inside it becomes a failure of the case here (the case ends after the first
+/// stage that panicked, the receive path would only run into the same panic).
+/// A panic raised in ezk's own code keeps the engine's signature `panic/<file>:<line>`. A panic raised below ezk (a
+/// dependency or std, e.g. the pointer-range assertions of `Bytes::slice_ref` behind `BytesStr::from_parse`) has a
+/// location that depends on the dependency's version and, for the pointer assertions, on the heap layout of the run:
+/// its signature names the stage and the crate instead.
+fn stage<R>(name: &'static str, out: &mut CaseOut, f: impl FnOnce() -> R) -> Option<R> {
+    match std::panic::catch_unwind(std::panic::AssertUnwindSafe(f)) {
+        Ok(r) => Some(r),
+        Err(_) => {
+            for p in crate::engine::panic_hook::take() {
+                let first = p.location.split('/').next().unwrap_or("");
+                let registry_crate = first.rsplit_once('-').filter(|(_, v)| v.starts_with(|c: char| c.is_ascii_digit())).map(|(n, _)| n);
+                let below_ezk = registry_crate.or(if first == "library" { Some("std") } else { None });
+                match below_ezk {
+                    Some(krate) => out.fail(format!("c02.panic/{name}-panics-inside-{krate}"), format!("{name}: panic: {} at {}", p.message, p.location)),
+                    None => out.fail(format!("panic/{}", p.location), format!("panic: {} at {}", p.message, p.location)),
+                }
+            }
+            None
+        }
+    }
+}
+
+/// every label the generators of `hostile` put into a case
+const HOSTILE_LABELS: &[&str] = &[
+    "content-length", "content-length-duplicate-compact", "cseq-number", "cseq-shape", "session-expires", "min-se", "expires", "max-forwards", "rseq-rack", "via", "via-missing",
+    "via-x20", "from-to", "base-header-missing", "contact", "auth", "auth-50-params", "invalid-utf8", "start-line", "obs-fold", "head-4096+-2", "head-terminator", "option-tags",
+    "body-length-mismatch", "long-non-ascii-malformed-value", "branch-of-live-transaction", "lf-only", "leading-crlf", "truncated", "byte-mutated", "random-bytes", "random-ascii",
+    "random-tokens", "uri-form", "uri@request-line", "uri@from-to", "uri@contact", "uri@route", "uri:escape-in-user", "uri:password-with-escape", "uri:password-without-escape",
+    "uri:escape-in-uri-parameter", "uri:escape-in-uri-header", "uri:ipv6-host", "escapes-in-header-parameters",
+];
+
 pub fn check(case: &Case, out: &mut CaseOut) {
     for l in &case.labels {
         // labels are a fixed vocabulary
-        out.class(match l.as_str() {
-            "content-length" => "content-length",
-            "content-length-duplicate-compact" => "content-length-duplicate-compact",
-            "cseq-number" => "cseq-number",
-            "cseq-shape" => "cseq-shape",
-            "session-expires" => "session-expires",
-            "min-se" => "min-se",
-            "expires" => "expires",
-            "max-forwards" => "max-forwards",
-            "rseq-rack" => "rseq-rack",
-            "via" => "via",
-            "via-missing" => "via-missing",
-            "via-x20" => "via-x20",
-            "from-to" => "from-to",
-            "base-header-missing" => "base-header-missing",
-            "contact" => "contact",
-            "auth" => "auth",
-            "auth-50-params" => "auth-50-params",
-            "invalid-utf8" => "invalid-utf8",
-            "start-line" => "start-line",
-            "obs-fold" => "obs-fold",
-            "head-4096+-2" => "head-4096+-2",
-            "head-terminator" => "head-terminator",
-            "option-tags" => "option-tags",
-            "body-length-mismatch" => "body-length-mismatch",
-            "long-non-ascii-malformed-value" => "long-non-ascii-malformed-value",
-            "branch-of-live-transaction" => "branch-of-live-transaction",
-            "lf-only" => "lf-only",
-            "leading-crlf" => "leading-crlf",
-            "truncated" => "truncated",
-            "byte-mutated" => "byte-mutated",
-            "random-bytes" => "random-bytes",
-            "random-ascii" => "random-ascii",
-            _ => "random-tokens",
-        });
+        if let Some(s) = HOSTILE_LABELS.iter().find(|s| **s == l.as_str()) {
+            out.class(s);
+        }
     }
     out.class(if case.stream_cuts.is_some() { "as-stream" } else { "as-datagram" });
     if case.in_dialog {
@@ -574,11 +947,15 @@ pub fn check(case: &Case, out: &mut CaseOut) {
     }
 
     // 1. pure parsers: datagram parser + every typed decoder; stream decoder under the segmentation
-    let parsed = parse_complete(Default::default(), &case.bytes);
     let mut reached_headers = false;
-    if let Ok(CompleteItem::Sip { headers, .. }) = &parsed {
-        reached_headers = true;
-        decode_everything(headers);
+    let mut pure_stage_panicked = false;
+    match stage("datagram-parser", out, || parse_complete(Default::default(), &case.bytes)) {
+        Some(Ok(CompleteItem::Sip { headers, .. })) => {
+            reached_headers = true;
+            pure_stage_panicked |= stage("typed-header-decoder", out, || decode_everything(&headers)).is_none();
+        }
+        Some(_) => {}
+        None => pure_stage_panicked = true,
     }
     let total = case.bytes.len();
     let cuts: Vec<usize> = case
@@ -588,18 +965,39 @@ pub fn check(case: &Case, out: &mut CaseOut) {
         .into_iter()
         .map(|s| 1 + pick_idx(s, total.saturating_sub(1).max(1)))
         .collect();
-    let (decoded, _err) = decode_stream(&case.bytes, &cuts);
-    if !decoded.is_empty() {
-        reached_headers = true;
+    // (the stream decoder hands the head to the same message parser: a panic found above is not reported twice)
+    if !pure_stage_panicked {
+        match stage("stream-decoder", out, || decode_stream(&case.bytes, &cuts)) {
+            Some((decoded, _err)) => {
+                if !decoded.is_empty() {
+                    reached_headers = true;
+                }
+            }
+            None => pure_stage_panicked = true,
+        }
     }
     if reached_headers && !case.labels.iter().all(|l| l.starts_with("random")) {
-        out.nontrivial(&case.bytes);
+        // distinct by the input and the scenario it is delivered in
+        out.nontrivial(&(&case.bytes, case.stream_cuts.is_some(), case.in_dialog, case.early, case.before_ack, case.app, case.peer_ack_ms));
         out.class("reached-header-decoding");
+    }
+
+    // the receive path would run into the same panic (inline in the datagram receive loop / in the task that decodes
+    // the header): it is reported once, by the stage that isolates it
+    if pure_stage_panicked {
+        return;
     }
 
     // 2. the whole path + liveness: after the hostile input a valid request must still be answered
     let c = case.clone();
-    let (answered_dgram, answered_stream, wire_note) = run_world(case.rng as u64, |clock| async move {
+    let (on_invite, on_reinvite, app_class) = app_policy(case.app);
+    out.class(app_class);
+    out.class(match case.peer_ack_ms {
+        None => "peer-never-ACKs-a-failure-response",
+        Some(ms) if ms < T1 => "peer-ACKs-a-failure-response-within-T1",
+        Some(_) => "peer-ACKs-a-failure-response-after-T1-or-later",
+    });
+    let (world, guard) = run_world_guarded(case.rng as u64, |clock| async move {
         let log = WireLog::new(clock);
         let (tp, _) = mock_datagram(&log, "UDP", false, false, "10.0.0.1:5060");
         let (lb, dialer) = mock_listener::<false>(clock, &log, "10.0.0.1:5060");
@@ -607,24 +1005,30 @@ pub fn check(case: &Case, out: &mut CaseOut) {
         b.add_unmanaged_transport(tp.clone());
         let dl = b.add_layer(DialogLayer::default());
         let il = b.add_layer(InviteLayer::default());
-        b.add_layer(AcceptAll { dialog_layer: dl, invite_layer: il });
+        b.add_layer(App { dialog_layer: dl, invite_layer: il, on_invite, on_reinvite });
         use sip_core::transport::streaming::StreamingListenerBuilder;
         lb.spawn(&mut b, "10.0.0.1:5060").await.unwrap();
         let endpoint = b.build();
         settle().await;
         let src: SocketAddr = "192.0.2.9:5060".parse().unwrap();
         let probe_src: SocketAddr = "192.0.2.77:5060".parse().unwrap();
+        // the peer's connection (stream delivery): everything the peer sends in this case goes over it
+        let mut conn: Option<PeerConn> = None;
+        if c.stream_cuts.is_some() {
+            conn = Some(dialer.dial("192.0.2.9:40404"));
+            settle().await;
+        }
+        let via_transport = if conn.is_some() { "TCP" } else { "UDP" };
 
         let mut bytes = c.bytes.clone();
         let mut late_ack: Option<Vec<u8>> = None;
         if c.in_dialog {
             // a plain call first: INVITE (no 100rel), 200 from the application, ACK
             let setup = request_text(
-                "INVITE", "sip:ezk@10.0.0.1", &["SIP/2.0/UDP 192.0.2.9:5060;branch=z9hG4bKsetupcall".into()],
+                "INVITE", "sip:ezk@10.0.0.1", &[format!("SIP/2.0/{via_transport} 192.0.2.9:5060;branch={SETUP_BRANCH}")],
                 "\"Mallory\" <sip:mallory@192.0.2.9>;tag=mt", "<sip:ezk@10.0.0.1>", "c02-call", 1, "INVITE",
                 &["Contact: <sip:mallory@192.0.2.9>".into(), if c.early { "Supported: timer, 100rel".into() } else { "Supported: timer".into() }], b"");
-            inject(&endpoint, &tp, src, &setup);
-            settle().await;
+            deliver(&endpoint, &tp, src, &mut conn, &setup).await;
             let want = if c.early { 183 } else { 200 };
             let tag = log.parsed().iter().filter_map(|(_, m)| m.as_ref()).find(|m| m.status() == Some(want)).and_then(|m| m.to_tag());
             if let (Some(tag), true) = (&tag, c.early) {
@@ -643,13 +1047,12 @@ pub fn check(case: &Case, out: &mut CaseOut) {
             }
             if let (Some(tag), false) = (tag, c.early) {
                 let ack = request_text(
-                    "ACK", "sip:ezk@10.0.0.1", &["SIP/2.0/UDP 192.0.2.9:5060;branch=z9hG4bKsetupack".into()],
+                    "ACK", "sip:ezk@10.0.0.1", &[format!("SIP/2.0/{via_transport} 192.0.2.9:5060;branch=z9hG4bKsetupack")],
                     "<sip:mallory@192.0.2.9>;tag=mt", &format!("<sip:ezk@10.0.0.1>;tag={tag}"), "c02-call", 1, "ACK", &[], b"");
                 if c.before_ack {
                     late_ack = Some(ack);
                 } else {
-                    inject(&endpoint, &tp, src, &ack);
-                    settle().await;
+                    deliver(&endpoint, &tp, src, &mut conn, &ack).await;
                 }
                 // put the real tag into the hostile message
                 let needle = b"sometag";
@@ -658,37 +1061,66 @@ pub fn check(case: &Case, out: &mut CaseOut) {
                 }
             }
         }
-        match &c.stream_cuts {
-            None => {
-                inject(&endpoint, &tp, src, &bytes);
-                settle().await;
-            }
-            Some(_) => {
-                let mut conn = dialer.dial("192.0.2.9:40404");
-                settle().await;
-                let mut cuts = cuts.clone();
+        // the hostile input: one datagram, or the segments of a stream
+        match (&c.stream_cuts, &mut conn) {
+            (Some(selectors), Some(conn)) => {
+                let total = bytes.len();
+                let mut cuts: Vec<usize> = selectors.iter().map(|s| 1 + pick_idx(*s, total.saturating_sub(1).max(1))).collect();
                 cuts.sort();
                 cuts.dedup();
                 let mut prev = 0;
-                for cut in cuts.into_iter().chain([c.bytes.len()]) {
-                    if cut > prev && cut <= c.bytes.len() {
-                        conn.write(&c.bytes[prev..cut]).await;
+                for cut in cuts.into_iter().chain([total]) {
+                    if cut > prev && cut <= total {
+                        conn.write(&bytes[prev..cut]).await;
                         settle().await;
                         prev = cut;
                     }
                 }
-                // keep the connection open while the probes run
-                std::mem::forget(conn);
+            }
+            _ => {
+                inject(&endpoint, &tp, src, &bytes);
+                settle().await;
             }
         }
-        if let Some(ack) = late_ack {
-            clock.advance(700).await;
-            inject(&endpoint, &tp, src, &ack);
-            settle().await;
+        // what the peer does afterwards: the ACK of the set-up call when that is still owed (700 ms later), the ACKs
+        // for the 3xx-6xx final responses it got to its INVITEs (`peer_ack_ms`, or never)
+        let t0 = clock.now_ms();
+        let mut timeline: Vec<(u64, bool)> = vec![];
+        let had_late_ack = late_ack.is_some();
+        if had_late_ack {
+            timeline.push((700, true));
+        }
+        if let Some(ms) = c.peer_ack_ms {
+            timeline.push((ms, false));
+        }
+        timeline.sort();
+        let mut acked = Default::default();
+        let mut failure_acks_sent = 0u32;
+        for (at, setup_ack) in timeline {
+            clock.until(t0 + at).await;
+            if setup_ack {
+                if let Some(ack) = late_ack.take() {
+                    deliver(&endpoint, &tp, src, &mut conn, &ack).await;
+                }
+            } else {
+                for (tp_id, dest, ack) in failure_acks(&log, &mut acked) {
+                    if tp_id >= 0x1_0000 {
+                        if conn.as_ref().map_or(false, |c| c.id == tp_id) {
+                            deliver(&endpoint, &tp, dest, &mut conn, &ack).await;
+                            failure_acks_sent += 1;
+                        }
+                    } else {
+                        inject(&endpoint, &tp, dest, &ack);
+                        settle().await;
+                        failure_acks_sent += 1;
+                    }
+                }
+            }
         }
         // let timers of whatever the input started run for a while (retransmissions, session timers); the long life
         // reaches past the expiry of the 1800 s session timer of the set-up call (BYE by ezk, unanswered)
-        clock.advance(if c.long_life { 1_900_000 } else { 40_000 }).await;
+        let end = t0 + if had_late_ack { 700 } else { 0 } + if c.long_life { 1_900_000 } else { 40_000 };
+        clock.until(end).await;
         settle().await;
 
         // datagram probe
@@ -701,18 +1133,60 @@ pub fn check(case: &Case, out: &mut CaseOut) {
         settle().await;
         let wire = log.parsed();
         let answered = |branch: &str| wire.iter().any(|(_, m)| m.as_ref().map_or(false, |m| !m.is_request() && m.via_branch().as_deref() == Some(branch)));
-        let a = answered("z9hG4bKprobe1");
-        let bb = answered("z9hG4bKprobe2");
-        let note = format!("{} messages on the wire", wire.len());
-        (a, bb, note)
+        // 3xx-6xx final responses of ezk to an INVITE, by the kind of transport they went over
+        let mut failures = (0u32, 0u32);
+        for (s, m) in &wire {
+            if let Some(m) = m {
+                if m.status().map_or(false, |c| c >= 300) && m.cseq().map_or(false, |(_, method)| method == "INVITE") {
+                    if s.tp >= 0x1_0000 {
+                        failures.1 += 1;
+                    } else {
+                        failures.0 += 1;
+                    }
+                }
+            }
+        }
+        // the peer's connection stays open until here
+        drop(conn);
+        World { answered_dgram: answered("z9hG4bKprobe1"), answered_stream: answered("z9hG4bKprobe2"), wire_len: wire.len(), failures, failure_acks_sent }
     });
-    out.note = Some(wire_note);
-    if !answered_dgram {
+    guard_classes(&guard, out);
+    if let Some(t) = guard.tripped_at_ms {
+        out.fail(
+            "c02.hang/task-polled-forever-while-time-stands-still",
+            format!("after the hostile input a task of the endpoint never waits again: more than {SPIN_LIMIT} task polls at virtual time {t} ms, the runtime never goes idle (busy loop; with a paused clock time cannot advance, with a real clock one core is burnt)"),
+        );
+    }
+    let Some(world) = world else { return };
+    out.note = Some(format!("{} messages on the wire", world.wire_len));
+    if world.failures.0 > 0 {
+        out.class("INVITE-answered-3xx-6xx-over-datagram-transport");
+    }
+    if world.failures.1 > 0 {
+        out.class("INVITE-answered-3xx-6xx-over-reliable-connection");
+        if case.peer_ack_ms.map_or(true, |ms| ms > T1) {
+            out.class("INVITE-answered-3xx-6xx-over-reliable-connection,no-ACK-within-T1");
+        }
+    }
+    if world.failure_acks_sent > 0 {
+        out.class("peer-ACKed-a-failure-response");
+    }
+    if !world.answered_dgram {
         out.fail("c02.liveness/datagram-transport-silent", "a valid OPTIONS sent after the hostile input over the datagram transport got no response");
     }
-    if !answered_stream {
+    if !world.answered_stream {
         out.fail("c02.liveness/stream-listener-silent", "a valid OPTIONS on a fresh connection after the hostile input got no response");
     }
+}
+
+/// what the world of `check` reports
+struct World {
+    answered_dgram: bool,
+    answered_stream: bool,
+    wire_len: usize,
+    /// 3xx-6xx final responses to an INVITE over (the datagram transport, a connection)
+    failures: (u32, u32),
+    failure_acks_sent: u32,
 }
 
 // ---------------------------------------------------------------------------------------------
@@ -1231,11 +1705,11 @@ async fn session_life(mut session: sip_ua::invite::session::Session, cfg: AppCfg
     }
 }
 
-fn run_life(case: &LifeCase) -> LifeObs {
+fn run_life(case: &LifeCase) -> (Option<LifeObs>, Guard) {
     use sip_ua::invite::initiator::{EarlyResponse, Initiator, Response};
     use std::sync::Arc;
     let c = case.clone();
-    run_world(case.rng as u64, |clock| async move {
+    run_world_guarded(case.rng as u64, |clock| async move {
         let obs: SharedObs = Default::default();
         let log = WireLog::new(clock);
         let (tap_tx, mut tap_rx) = tokio::sync::mpsc::unbounded_channel::<Sent>();
@@ -1416,7 +1890,15 @@ fn check_life(case: &LifeCase, out: &mut CaseOut) {
         }
     }
     // the oracle: the engine's panic capture (any task of the world), the INVITE went out, the endpoint is still alive
-    let obs = run_life(case);
+    let (obs, guard) = run_life(case);
+    guard_classes(&guard, out);
+    if let Some(t) = guard.tripped_at_ms {
+        out.fail(
+            "c02.hang/task-polled-forever-while-time-stands-still",
+            format!("during the life of the session a task never waits again: more than {SPIN_LIMIT} task polls at virtual time {t} ms, the runtime never goes idle (busy loop)"),
+        );
+    }
+    let Some(obs) = obs else { return };
     out.note = Some(format!("{obs:?}"));
     if !obs.invite_sent {
         out.fail("c02.uac-life/invite-not-sent", "INVITE not sent");
@@ -1488,14 +1970,15 @@ pub fn property() -> Property {
     Property {
         fuzz: vec![FuzzStage { target: "sip_datagram", runs: 2_000_000, max_len: 6000, seed_corpus: seed_corpus_datagram }],
         id: "C02",
-        rule: "hostile: a case = one hostile input: (60%) a valid INVITE / OPTIONS / in-dialog BYE, re-INVITE, PRACK, ACK, UPDATE / 200 response / REGISTER with 1..3 mutations from a 27-entry catalogue (Content-Length incl. usize::MAX, duplicate compact l, CSeq / Session-Expires / Min-SE / Expires / Max-Forwards / RSeq / RAck over {0,1,9,10,11,u32::MAX-1,u32::MAX,u32::MAX+1,2^64-1,2^64,-1,...}, hostile Via / From / To / Contact / auth values, missing base headers, 20 Vias, invalid UTF-8, broken start lines, obs-fold, 4096+-2 byte heads, broken head terminators, body length mismatch, long malformed values with a multi-byte character at any offset, the branch of a live transaction), optional LF-only line ends, leading CRLFs, truncation; (20%) byte-level mutations of valid messages; (20%) random bytes / ASCII / SIP-token soup. Delivered as one datagram or over a stream connection in random segments, outside a dialog or (40%) inside the dialog of a call set up before (established / before the ACK / INVITE pending). Checked: datagram parser, every typed header decoder on every header value, the stream decoder, then the whole receive path of an endpoint with DialogLayer + InviteLayer + an application that accepts every INVITE (180, reliable 183, 200, session driven for 4 events), 40 s of virtual time (in-dialog, 20%: 1900 s, past the expiry of the call's 1800 s session timer), and finally a valid OPTIONS over the datagram transport and over a fresh connection must each be answered. Non-trivial = the input reached header decoding (start line parsed) and is not pure noise; distinct by bytes. uac_hostile_responses: 1..5 responses (100/180/183/200/486, forks, Contact, Record-Route, RSeq) carrying 0..3 lines of a hostile-header list to an INVITE sent through Initiator; non-trivial = at least one hostile line; distinct by case. uac_session_life: a response history by shape (2xx first / 18x then 2xx of the same fork / other fork / two 2xx / free) whose 2xx carry a Session-Expires line = name spelling x delta {0,1..22,30..91,1800,u32::MAX-10..u32::MAX,not a u32} x parameters {none, refresher=uac, =uas, empty/unknown value, other letter case, other parameters only, twice/among others, odd syntax}, with/without Require: timer, Supported, Contact, hostile extras; Initiator configuration (6); per in-dialog request of ezk a peer reaction (silence or code in {100,180,200,202,404,408,481,491,500,603} after 1 ms..33 s with hostile lines); 0..2 peer requests inside the dialog (BYE/INVITE/UPDATE/OPTIONS/INFO/ACK/PRACK/CANCEL, CSeq {0,1,2,u32::MAX-1,u32::MAX,u32::MAX+1}, hostile lines, ACK or not); an application that drives every Session it is handed (default handling of RefreshNeeded / Bye, 200 or nothing for a re-INVITE, 1..6 events, optional hang-up via Session::terminate after 0.4..95 s); 0.9 s..1900 s of virtual time; then a valid OPTIONS must be answered. Non-trivial = the application got a session and something happened in it afterwards (timer fired, request of ezk or of the peer inside the dialog, hang-up, Terminated, drive error); distinct by case.",
+        rule: "hostile: a case = one hostile input: (60%) a valid INVITE / OPTIONS / in-dialog BYE, re-INVITE, PRACK, ACK, UPDATE / 200 response / REGISTER / CANCEL of the pending INVITE with 1..3 mutations from a 30-entry catalogue (Content-Length incl. usize::MAX, duplicate compact l, CSeq / Session-Expires / Min-SE / Expires / Max-Forwards / RSeq / RAck over {0,1,9,10,11,u32::MAX-1,u32::MAX,u32::MAX+1,2^64-1,2^64,-1,...}, hostile Via / From / To / Contact / auth values, missing base headers, 20 Vias, invalid UTF-8, broken start lines, obs-fold, 4096+-2 byte heads, broken head terminators, body length mismatch, long malformed values with a multi-byte character at any offset, the branch of a live transaction, a SIP URI built component-wise from the RFC 3261 25.1 grammar {scheme spelling} x {no userinfo, user, user:password; plain / every allowed character class / %XX decoding to ASCII, to a reserved character, to valid or invalid UTF-8, to NUL / just outside the grammar} x {IPv4, host name, IPv6 reference} x {port} x {uri-parameters, with escapes} x {headers, with escapes} placed in the request line / From / To / Contact / Route / Record-Route as name-addr, with display name or bare, escapes / quoted strings / quoted pairs in display names and header parameters of From, To, Via, Call-ID, Contact, Content-Type), optional LF-only line ends, leading CRLFs, truncation; (20%) byte-level mutations of valid messages; (20%) random bytes / ASCII / SIP-token soup. Delivered as one datagram or over a stream connection (reliable transport) in random segments, outside a dialog or (40%) inside the dialog of a call set up before (established / before the ACK / INVITE pending; 21% of these run the whole call over the connection). Application policy: (50%) accepts every INVITE (180, reliable 183, 200, session driven for 4 events, re-INVITE let go), else one of: also answers a re-INVITE 200 / rejects at once with 486, 603 or 302 through the INVITE server transaction (re-INVITE: 488, 603, 500) / 180 then 480 through Acceptor::respond_failure / does not take the INVITE (the endpoint answers 481). Peer: ACKs every 3xx-6xx final response to its INVITE 50 ms / 700 ms / 5 s / 33 s after the input, or (40%) never. Checked: datagram parser, every typed header decoder on every header value, the stream decoder (each stage isolated so that a panic is attributed to it), then the whole receive path of the endpoint for 40 s of virtual time (in-dialog, 20%: 1900 s, past the expiry of the call's 1800 s session timer) under the spin guard (no virtual instant may see more than 5000 task polls; sound runs stay below 100), and finally a valid OPTIONS over the datagram transport and over a fresh connection must each be answered. Non-trivial = the input reached header decoding (start line parsed) and is not pure noise; distinct by bytes + delivery scenario (transport, dialog state, application policy, peer ACK). uac_hostile_responses: 1..5 responses (100/180/183/200/486, forks, Contact, Record-Route, RSeq) carrying 0..3 lines of a hostile-header list to an INVITE sent through Initiator; non-trivial = at least one hostile line; distinct by case. uac_session_life: a response history by shape (2xx first / 18x then 2xx of the same fork / other fork / two 2xx / free) whose 2xx carry a Session-Expires line = name spelling x delta {0,1..22,30..91,1800,u32::MAX-10..u32::MAX,not a u32} x parameters {none, refresher=uac, =uas, empty/unknown value, other letter case, other parameters only, twice/among others, odd syntax}, with/without Require: timer, Supported, Contact, hostile extras; Initiator configuration (6); per in-dialog request of ezk a peer reaction (silence or code in {100,180,200,202,404,408,481,491,500,603} after 1 ms..33 s with hostile lines); 0..2 peer requests inside the dialog (BYE/INVITE/UPDATE/OPTIONS/INFO/ACK/PRACK/CANCEL, CSeq {0,1,2,u32::MAX-1,u32::MAX,u32::MAX+1}, hostile lines, ACK or not); an application that drives every Session it is handed (default handling of RefreshNeeded / Bye, 200 or nothing for a re-INVITE, 1..6 events, optional hang-up via Session::terminate after 0.4..95 s); 0.9 s..1900 s of virtual time under the spin guard; then a valid OPTIONS must be answered. Non-trivial = the application got a session and something happened in it afterwards (timer fired, request of ezk or of the peer inside the dialog, hang-up, Terminated, drive error); distinct by case.",
         assumptions: vec![
-            "any panic on the case's thread (including spawned tasks of the current-thread runtime, e.g. the task driving a session) is a violation; hangs are caught by the engine's wall-clock watchdog and reported as inconclusive",
+            "any panic on the case's thread (including spawned tasks of the current-thread runtime, e.g. the task driving a session) is a violation; a panic raised below ezk (dependency / std) inside one of the pure parsing stages is reported as c02.panic/<stage>-panics-inside-<crate> because its file:line (and for pointer assertions even which assertion fires) is not a function of the case",
+            "loop forever: a task that never again waits for anything in the future keeps the single-threaded runtime busy at one virtual instant; the spin guard (runtime hook counting task polls per virtual instant, limit 5000, a pure function of the case) reports it as c02.hang/...; a loop that never yields to the runtime at all cannot be interrupted from inside the thread and is left to the engine's wall-clock watchdog (inconclusive)",
             "that a malformed message is answered is not asserted, only that valid traffic after it is",
             "uac_session_life asserts nothing about WHICH event the application gets, what ezk sends or when (C13, C17); the application calls only the public API in the documented order (keeps the Initiator alive, stops polling an Early after its session / error, never drives a session after Terminated / an error)",
             "hostile values inside live dialog / INVITE / REGISTER scenarios are additionally covered by the scenario sub-checks of C10, C12, C13, C17 (u32::MAX CSeq, hostile Session-Expires / Min-SE / Expires, retransmitted 2xx, missing To-tag)",
         ],
-        explanation: "sampled; the mutation catalogue coverage (hostile) and the Session-Expires delta / parameter classes, history shapes and what actually happened in the session (uac_session_life) are reported per entry in the class histogram",
+        explanation: "sampled; the mutation catalogue coverage, URI component shapes, application policy, peer ACK behaviour, failure responses per transport kind and the busiest virtual instant (hostile) and the Session-Expires delta / parameter classes, history shapes and what actually happened in the session (uac_session_life) are reported per entry in the class histogram",
         subs: vec![
             prop_sub("hostile", strategy, 3000, 60000, check),
             prop_sub("uac_hostile_responses", uac_strategy, 1500, 30000, check_uac),
